@@ -8,6 +8,7 @@
 //   - part file names / paths   = Slide.Path (any ZIP member name; default ppt/slides/slide<k>.xml,
 //     k = declared position)
 //   - relationship ids          = Slide.RID (default rId<100+k>; deliberately NOT the file number)
+//   - sldId id attributes       = Slide.SlideID (default 256+k)
 //   - order of <Relationship>   = Deck.RelOrder
 //   - Target spelling           = Deck.TargetStyle (relative to ppt/, absolute "/ppt/...",
 //     "./"-prefixed)
@@ -52,6 +53,9 @@ type Slide struct {
 	Path string
 	// RID is the relationship id used in sldIdLst / presentation.xml.rels. Default "rId<100+k>".
 	RID string
+	// SlideID is the id attribute of the p:sldId element (an arbitrary unique number >= 256 that
+	// carries no order; PowerPoint keeps it when slides are moved). Default 256+declared position.
+	SlideID int
 	// Target overrides the Target attribute written to presentation.xml.rels (default: derived
 	// from Path according to Deck.TargetStyle).
 	Target string
@@ -238,7 +242,11 @@ func (d *Deck) Members() []zipw.Member {
 	}
 	pres.WriteString(`<p:sldIdLst>`)
 	for i, s := range decl {
-		fmt.Fprintf(&pres, `<p:sldId id="%d" r:id="%s"/>`, 256+i, s.RID)
+		id := s.SlideID
+		if id == 0 {
+			id = 256 + i
+		}
+		fmt.Fprintf(&pres, `<p:sldId id="%d" r:id="%s"/>`, id, s.RID)
 	}
 	pres.WriteString(`</p:sldIdLst><p:sldSz cx="9144000" cy="6858000"/><p:notesSz cx="6858000" cy="9144000"/></p:presentation>`)
 
